@@ -94,9 +94,17 @@ func linearGen(r *rand.Rand, n int, tier string, emit func(Case)) {
 			if r.Intn(3) == 0 {
 				fn = []int{0, fd}[r.Intn(2)]
 			}
-			emit(Case{"kind": "interp", "line": ln, "fn": fn, "fd": fd, "ct": r.Intn(4)})
+			c := Case{"kind": "interp", "line": ln, "fn": fn, "fd": fd, "ct": r.Intn(4)}
+			if r.Intn(4) == 0 {
+				c["rot"] = randRot(r) // general-position float image: arc-length fractions are preserved
+			}
+			emit(c)
 		case 2:
-			emit(Case{"kind": "even", "line": intLine(r), "n": r.Intn(53) - 2, "ct": r.Intn(4)})
+			c := Case{"kind": "even", "line": intLine(r), "n": r.Intn(53) - 2, "ct": r.Intn(4)}
+			if r.Intn(4) == 0 {
+				c["rot"] = randRot(r)
+			}
+			emit(c)
 		case 3:
 			if r.Intn(6) == 0 {
 				// a slab with two or three square holes of different sizes side by side, in any order, and thresholds
@@ -121,7 +129,11 @@ func linearGen(r *rand.Rand, n int, tier string, emit func(Case)) {
 			}
 			side := 3 + r.Intn(14)
 			td := []int{1, 2, 4, 16}[r.Intn(4)]
-			emit(Case{"kind": "simplify", "line": latticeLine(r, 2+r.Intn(7), side), "tn": r.Intn(side*td + 1), "td": td, "ring": r.Intn(4) == 0, "ct": r.Intn(4)})
+			cs := Case{"kind": "simplify", "line": latticeLine(r, 2+r.Intn(7), side), "tn": r.Intn(side*td + 1), "td": td, "ring": r.Intn(4) == 0, "ct": r.Intn(4)}
+			if r.Intn(5) == 0 {
+				cs["rot"] = randRot(r)
+			}
+			emit(cs)
 		case 4:
 			if r.Intn(3) == 0 {
 				l := &lgen{r: r, N: 3 + r.Intn(6)}
@@ -131,7 +143,11 @@ func linearGen(r *rand.Rand, n int, tier string, emit func(Case)) {
 			}
 			side := 2 + r.Intn(7)
 			dd := []int{1, 2, 4, 8}[r.Intn(4)]
-			emit(Case{"kind": "densify", "line": latticeLine(r, 2+r.Intn(4), side), "dn": 1 + r.Intn(10*side*dd), "dd": dd, "ct": r.Intn(4)})
+			cd := Case{"kind": "densify", "line": latticeLine(r, 2+r.Intn(4), side), "dn": 1 + r.Intn(10*side*dd), "dd": dd, "ct": r.Intn(4)}
+			if r.Intn(5) == 0 {
+				cd["rot"] = randRot(r)
+			}
+			emit(cd)
 		case 5:
 			x := snapValues[r.Intn(len(snapValues))]
 			if r.Intn(3) == 0 {
@@ -151,6 +167,11 @@ func linearGen(r *rand.Rand, n int, tier string, emit func(Case)) {
 			emit(Case{"kind": "orient", "w": l.any(4).AsText(), "ct": r.Intn(4)})
 		}
 	}
+}
+
+// randRot: a general-position map as in pairCase (rotation by an arbitrary angle, non-dyadic scale, offset).
+func randRot(r *rand.Rand) []interface{} {
+	return []interface{}{bitsHex(r.Float64() * 2 * math.Pi), bitsHex(0.1 + 99.9*r.Float64()), bitsHex(-500 + 1000*r.Float64()), bitsHex(-500 + 1000*r.Float64())}
 }
 
 func linearOnPanic(c Case) Event {
@@ -215,8 +236,16 @@ func linearExec(c Case) Event {
 		pts := intsOf(c["line"])
 		ls, zs := lineOf(pts, ct)
 		ev["line"], ev["zs"], ev["fn"], ev["fd"] = pts, zs, c.num("fn"), c.num("fd")
+		f, _ := mapOf(c)
+		inv := invOf(c)
+		if f != nil {
+			ls = ls.TransformXY(f)
+		}
 		p := ls.InterpolatePoint(float64(c.num("fn")) / float64(c.num("fd")))
 		co, ok := p.Coordinates()
+		if ok && inv != nil && finiteXY(co.XY) {
+			co.XY = inv(co.XY)
+		}
 		ev["empty"] = !ok
 		if ok {
 			fin := finiteXY(co.XY) && !math.IsNaN(co.Z) && !math.IsNaN(co.M)
@@ -242,6 +271,11 @@ func linearExec(c Case) Event {
 		pts := intsOf(c["line"])
 		ls, _ := lineOf(pts, ct)
 		ev["line"], ev["n"] = pts, c.num("n")
+		f, _ := mapOf(c)
+		inv := invOf(c)
+		if f != nil {
+			ls = ls.TransformXY(f)
+		}
 		mp := ls.InterpolateEvenlySpacedPoints(c.num("n"))
 		out := [][]int{}
 		for i := 0; i < mp.NumPoints(); i++ {
@@ -249,6 +283,9 @@ func linearExec(c Case) Event {
 			if !ok || !finiteXY(xy) {
 				out = append(out, []int{-999999, -999999})
 				continue
+			}
+			if inv != nil {
+				xy = inv(xy)
 			}
 			out = append(out, []int{scaled(xy.X, 1024), scaled(xy.Y, 1024)})
 		}
@@ -265,12 +302,21 @@ func linearExec(c Case) Event {
 			ev["err"] = "skip-invalid-input"
 			return ev
 		}
-		res, err := ls.AsGeometry().Simplify(t)
+		f, gp := mapOf(c)
+		lsg := ls.AsGeometry()
+		if f != nil {
+			lsg = lsg.TransformXY(f)
+			t *= scaleOf(c)
+		}
+		res, err := lsg.Simplify(t)
 		if err != nil {
 			ev["err"] = errStr(err)
 			return ev
 		}
 		ev["valid"] = res.Validate() == nil && res.CoordinatesType() == ct && res.IsLineString()
+		if gp {
+			res = res.TransformXY(snapLattice(invOf(c))) // kept vertices are original vertices
+		}
 		ev["kept"] = seqInts(res.DumpCoordinates())
 	case "simplifypoly":
 		g := mustWKT(c.str("w")).ForceCoordinatesType(ct)
@@ -329,7 +375,16 @@ func linearExec(c Case) Event {
 		pts := intsOf(c["line"])
 		ls, _ := lineOf(pts, ct)
 		ev["line"], ev["dn"], ev["dd"] = pts, c.num("dn"), c.num("dd")
-		res := ls.Densify(float64(c.num("dn")) / float64(c.num("dd")))
+		d := float64(c.num("dn")) / float64(c.num("dd"))
+		f, gp := mapOf(c)
+		if f != nil {
+			ls = ls.TransformXY(f)
+			d *= scaleOf(c)
+		}
+		res := ls.Densify(d)
+		if gp {
+			res = res.TransformXY(snapLattice(invOf(c))) // original vertices come back exactly, added points as floats
+		}
 		seq := res.Coordinates()
 		out := [][]int{}
 		for i := 0; i < seq.Length(); i++ {
